@@ -23,7 +23,7 @@ class C09(e1.E1Check):
                    reg(2, opt(I)), opt(reg(2, I))]
     types_thorough = types_quick + [var(var(opt(I))), opt(var(var(I))), var(opt(var(I))), reg(3, opt(F)), opt(var(reg(2, I)))]
     bounds_quick = dict(N=3, M=2, K=6, enc_k=1, state_cap=150, parts=2)
-    bounds_thorough = dict(N=4, M=3, K=9, enc_k=2, state_cap=60, parts=16)
+    bounds_thorough = dict(N=4, M=3, K=8, enc_k=1, state_cap=120, parts=16)
     rule = ("states = arrays with options at any level x all five option encodings (IndexedOption32/64, ByteMasked either "
             "polarity, BitMasked in either bit order and polarity with garbage padding bits, Unmasked) and list encodings; "
             "transitions = rpad / rpad_and_clip (target 0..M+2, every axis), fillna(99), and the option conversions project / "
